@@ -133,6 +133,42 @@ SPEC_CODES = {30: "a function built from a conforming value could not be encoded
               35: "the stream/function lookup returned a different class"}
 
 
+def data_item_values_sweep():
+    """A data item of a fixed type given to a data item that admits that type among several (MDLN('x') as MID, ALID(7) as a
+    DATAID ...): it is a typed value like the plain variable it is made of - accepted exactly when that is, with the same bytes."""
+    import secsgem.secs.data_items as di
+    import secsgem.secs.variables as var
+    classes = [c for c in vars(di).values() if isinstance(c, type) and issubclass(c, di.DataItemBase) and c is not di.DataItemBase and getattr(c, "__type__", None)]
+    fixed = [c for c in classes if c.__type__ is not var.Dynamic and c.__type__ is not var.Array]
+    dyn = [c for c in classes if c.__type__ is var.Dynamic]
+    samples = {var.String: ["", "x", "abcde" * 20], var.Binary: [b"", b"\x01", bytes(70)], var.Boolean: [True], var.U1: [7], var.U2: [300], var.U4: [70000], var.U8: [2**40],
+               var.I1: [-7], var.I2: [-300], var.I4: [-70000], var.I8: [-2**40], var.F4: [1.5], var.F8: [2.5], var.JIS8: ["x"]}
+    diffs, tried = [], 0
+    for d in dyn:
+        for f in fixed:
+            if f.__type__ not in d.__allowedtypes__:
+                continue
+            for raw in samples.get(f.__type__, []):
+                try:
+                    item = f(raw)
+                except Exception:  # noqa: BLE001
+                    continue
+                tried += 1
+
+                def outcome(value):
+                    try:
+                        return d(value).encode().hex()
+                    except (ValueError, IndexError, UnicodeError):
+                        return "rejected"
+                    except Exception as exc:  # noqa: BLE001
+                        return "raised " + type(exc).__name__
+
+                as_item, as_plain = outcome(item), outcome(f.__type__(item.get()))
+                if as_item != as_plain and len(diffs) < 5:
+                    diffs.append({"into": d.__name__, "value": f"{f.__name__}({raw!r})"[:80], "as_data_item": as_item[:60], "as_plain_variable": as_plain[:60]})
+    return tried, diffs
+
+
 def run(tier, replay=None):
     report = common.Report("C03", tier)
     if replay:
@@ -145,6 +181,11 @@ def run(tier, replay=None):
         report.violation({"kind": "broken-obligation", "obligation": "model Run/C03Run.vo does not build against the regenerated catalogue", "detail": log[-1500:], "also": proof.get("broken")}, False, tag="modelbuild")
         return report.finish()
     common.coq_make(["Proofs/CatalogueProofs.vo"])
+    tried, diffs = data_item_values_sweep()
+    report.coverage["data_item_instances_as_values"] = {"combinations": tried, "different": len(diffs)}
+    if diffs:
+        report.violation({"kind": "counterexample", "what": "a data item instance given as the value of another data item is not treated like the typed variable it is made of",
+                          **diffs[0], "count": len(diffs)}, True, tag="dataitemvalue")
     # search: which catalogue entry breaks which consistency rule (names the concrete function when the table theorem no longer checks)
     ok2, out = common.coq_eval("c03_facts", "From SG Require Import Base.Prelude Model.Functions Proofs.CatalogueProofs Gen.Catalogue.\n",
                                "Eval vm_compute in (unique_sf catalogue, all_parse catalogue, classes_eq_yaml, pairing_ok catalogue,\n"
